@@ -179,16 +179,23 @@ def named(ctx):
     pre = [n for n in g.node.body if isinstance(n, ast.If) and "allowedChar" in norm(n.test)]
     if len(pre) != 1:
         raise AnalysisError("consumeEntity: pre-check not found")
+    # local aliases of the first character read (`c = self.stream.char(); charStack = [c]`)
+    first_aliases = [norm(st.targets[0]) for st in g.node.body[:g.node.body.index(pre[0])]
+                     if isinstance(st, ast.Assign) and isinstance(st.targets[0], ast.Name) and norm(st.value) == "self.stream.char()"]
     for allowed in (None, '"', "'", ">"):
         for a in ATOMS:
             env = {"charStack": [a], "allowedChar": allowed, "self": Opaque("self")}
+            env.update({al: a for al in first_aliases})
             got = gi.eval_guard(pre[0].test, env)
             exp = a is None or a in space or a in ("<", "&") or (allowed is not None and a == allowed)
             r.check("R14.7", got == exp, "pre-check[allowed=%s,%s]" % (allowed, atom_name(a)), "%s:%d" % (REL, pre[0].lineno),
                     "after '&' (additional allowed character %r) the character %s is %s as 'not a character reference'"
                     % (allowed, atom_name(a), "treated" if got else "not treated"))
-    r.check("R14.7", [norm(s) for s in pre[0].body] == ["self.stream.unget(charStack[0])"], "pre-check-unget",
-            "%s:%d" % (REL, pre[0].lineno), "the character that is not part of a reference is not given back")
+    ungets = ["self.stream.unget(charStack[0])"] + ["self.stream.unget(%s)" % al for al in first_aliases]
+    pb = [norm(s) for s in pre[0].body]
+    r.idiom("R14.7", len(pb) == 1 and pb[0] in ungets, "pre-check-unget",
+            "%s:%d" % (REL, pre[0].lineno), "the character that is not part of a reference is not given back",
+            wrong=[(not any("unget" in x for x in pb), None)])
 
 
 def reverse_map(ctx, ents):
